@@ -243,6 +243,10 @@ func (c *fnCtx) ctorInit(ci *ctorInfo, fieldNames []string, fieldTypes map[strin
 			vals[id.Name] = x.name
 			continue
 		}
+		if fv.typ.k == "obj" {
+			vals[id.Name] = c.objInit(fv, kv.Value, &pre) // fn_stdobj.go: buf: bufio.NewReader(r)
+			continue
+		}
 		e, et := c.expr(kv.Value, &pre)
 		c.noAlias(kv.Value, et)
 		vals[id.Name] = e
